@@ -7,8 +7,10 @@ cd /repo
 import sys
 f, old, new = sys.argv[1:4]
 s = open(f).read()
+every = old.startswith('ALL:')
+old = old[4:] if every else old
 assert s.count(old) >= 1, f"pattern not found in {f}"
-open(f, 'w').write(s.replace(old, new, 1) if not old.startswith('ALL:') else s.replace(old[4:], new))
+open(f, 'w').write(s.replace(old, new) if every else s.replace(old, new, 1))
 PY
 git diff > /verif/mutants/$name.patch
 git checkout -- .
